@@ -79,6 +79,15 @@ fn unit_case(rng: &mut Rng, report: &mut Report) -> String {
         6 => rng.next_u64(),
         _ => start_epoch.saturating_add(rng.below(span.max(1))),
     };
+    run_unit(t, epoch, report, None)
+}
+
+/// runs the real partition_for_expiry_epoch / advance on `t` and returns the Coq case
+fn run_unit(t: TransactionTrackerSubstateV1, epoch: u64, report: &mut Report, class: Option<&str>) -> String {
+    let (lo, hi) = (t.partition_range_start_inclusive, t.partition_range_end_inclusive);
+    if let Some(c) = class {
+        report.count(c);
+    }
     let t1 = t.clone();
     let pf = catch(std::panic::AssertUnwindSafe(move || t1.partition_for_expiry_epoch(Epoch::of(epoch))));
     let pf_coq = match &pf {
@@ -112,6 +121,64 @@ fn unit_case(rng: &mut Rng, report: &mut Report) -> String {
     let term = format!("CUnit {} {} {} {}", tracker_coq(&t), epoch, pf_coq, adv_coq);
     report.case(&term, matches!(pf, Ok(Some(_))));
     term
+}
+
+/// Deterministic boundary family for the unit stream (identical for every seed): every comparison of
+/// partition_for_expiry_epoch / advance at equality and one step on either side, the ring wrap, the
+/// first/last partition, and every arithmetic panic.
+fn unit_boundary_family(report: &mut Report) -> Vec<String> {
+    let mut out = vec![];
+    let mk = |se: u64, sp: u8, lo: u8, hi: u8, epp: u64| TransactionTrackerSubstateV1 {
+        start_epoch: se,
+        start_partition: sp,
+        partition_range_start_inclusive: lo,
+        partition_range_end_inclusive: hi,
+        epochs_per_partition: epp,
+    };
+    let (lo, hi, epp) = (PARTITION_RANGE_START, PARTITION_RANGE_END, EPOCHS_PER_PARTITION);
+    let n = (hi - lo) as u64 + 1;
+    // real ring: start partition first / second / middle / last but one / last
+    for sp in [lo, lo + 1, 160, hi - 1, hi] {
+        for se in [0u64, 1000] {
+            let to_wrap = (hi - sp) as u64; // partitions before the index wraps to `lo`
+            let mut push = |class: &str, e: u64, out: &mut Vec<String>| out.push(run_unit(mk(se, sp, lo, hi, epp), e, report, Some(class)));
+            if se > 0 {
+                push("b_unit_below_start", se - 1, &mut out);
+            }
+            push("b_unit_at_start", se, &mut out);
+            push("b_unit_partition_last_epoch", se + epp - 1, &mut out);
+            push("b_unit_partition_boundary", se + epp, &mut out);
+            push("b_unit_before_index_wrap", se + to_wrap * epp + epp - 1, &mut out);
+            if to_wrap + 1 < n {
+                push("b_unit_index_wrap", se + (to_wrap + 1) * epp, &mut out);
+            }
+            push("b_unit_window_last", se + n * epp - 1, &mut out);
+            push("b_unit_window_end", se + n * epp, &mut out);
+        }
+    }
+    // a tiny ring (3 partitions of 3 epochs), exhaustively: every start partition x every epoch around the window
+    for sp in 10u8..=12 {
+        for e in 49u64..=60 {
+            out.push(run_unit(mk(50, sp, 10, 12, 3), e, report, Some("b_unit_tiny_ring")));
+        }
+    }
+    // single-partition ring
+    for e in 6u64..=13 {
+        out.push(run_unit(mk(7, 9, 9, 9, 5), e, report, Some("b_unit_single_partition")));
+    }
+    // arithmetic edges: u8 partition count overflow (0..=255), empty range, epp 0, u64 overflows, asserts
+    out.push(run_unit(mk(5, 0, 0, 255, 100), 5, report, Some("b_unit_panic")));        // 256 partitions: u8 overflow
+    out.push(run_unit(mk(5, 0, 0, 254, 100), 5 + 255 * 100 - 1, report, Some("b_unit_u8_limit"))); // 255 partitions: ok
+    out.push(run_unit(mk(5, 7, 8, 7, 100), 5, report, Some("b_unit_panic")));           // hi < lo
+    out.push(run_unit(mk(5, 65, 65, 255, 0), 5, report, Some("b_unit_epp_zero")));      // empty window, no division
+    out.push(run_unit(mk(u64::MAX - 19_100, 65, 65, 255, 100), u64::MAX, report, Some("b_unit_u64_edge"))); // max_excl = u64::MAX+? boundary
+    out.push(run_unit(mk(u64::MAX - 19_099, 65, 65, 255, 100), u64::MAX, report, Some("b_unit_panic")));   // start + n*epp overflows
+    out.push(run_unit(mk(u64::MAX - 99, 65, 65, 255, 100), u64::MAX - 50, report, Some("b_unit_panic")));   // advance: start + epp overflows
+    out.push(run_unit(mk(0, 65, 65, 255, u64::MAX / 100), 1, report, Some("b_unit_panic")));               // n * epp overflows
+    out.push(run_unit(mk(100, 60, 65, 255, 100), 150, report, Some("b_unit_sp_outside_ring")));  // below the ring: assert
+    out.push(run_unit(mk(100, 255, 65, 200, 100), 150, report, Some("b_unit_sp_outside_ring"))); // above the ring; advance overflows u8
+    out.push(run_unit(mk(100, 201, 65, 200, 100), 100 + 135 * 100, report, Some("b_unit_sp_outside_ring")));
+    out
 }
 
 // ------------------------------------------------------------------------------------------------
@@ -327,6 +394,14 @@ fn valid_case(rng: &mut Rng, validator: &TransactionValidator, maxr: u64, report
         let (s, e) = if rng.chance(2, 3) { (base, base + 1 + rng.below(maxr)) } else { pick_window(rng, base, maxr) };
         build_v2(validator, &mut ids, rng.next_u64(), s, e, Want::Success, &children)
     };
+    run_valid(&tx, maxr, report, None)
+}
+
+fn run_valid(tx: &Tx, maxr: u64, report: &mut Report, class: Option<&str>) -> String {
+    if let Some(c) = class {
+        report.count(c);
+        report.count(if tx.executable.is_some() { "b_valid_accepted" } else { "b_valid_refused" });
+    }
     report.count(if tx.executable.is_some() { "valid_accepted" } else { "valid_refused" });
     // direct oracle: accepted => every intent window is non-empty and at most maxr long, and the overall
     // range is the intersection
@@ -346,6 +421,52 @@ fn valid_case(rng: &mut Rng, validator: &TransactionValidator, maxr: u64, report
     let term = format!("CValid {} {} {}", maxr, coq_list(tx.intents.iter().map(intent_coq)), o);
     report.case(&term, tx.executable.is_some());
     term
+}
+
+
+/// Deterministic boundary family for the static validators (identical for every seed).
+fn valid_boundary_family(validator: &TransactionValidator, maxr: u64, report: &mut Report) -> Vec<String> {
+    let mut out = vec![];
+    let s = 1000u64;
+    // V1 header: empty / reversed / shortest / longest / one too long; u64 edge of start + max_epoch_range
+    let v1: Vec<(&str, u64, u64)> = vec![
+        ("b_valid_v1_empty_window", s, s),
+        ("b_valid_v1_reversed_window", s, s - 1),
+        ("b_valid_v1_one_epoch", s, s + 1),
+        ("b_valid_v1_max_minus_1", s, s + maxr - 1),
+        ("b_valid_v1_max", s, s + maxr),
+        ("b_valid_v1_max_plus_1", s, s + maxr + 1),
+        ("b_valid_v1_from_zero", 0, 1),
+        ("b_valid_v1_u64_edge_ok", u64::MAX - maxr, u64::MAX),
+        ("b_valid_v1_u64_edge_overflow", u64::MAX - maxr + 1, u64::MAX),
+    ];
+    for (i, (class, a, b)) in v1.iter().enumerate() {
+        let mut ids = Ids { by_hash: BTreeMap::new() };
+        let tx = build_v1(validator, &mut ids, 7000 + i as u32, *a, *b, Want::Success);
+        out.push(run_valid(&tx, maxr, report, Some(class)));
+    }
+    // V2: root window [1000, 1010) against one or two children
+    let v2: Vec<(&str, (u64, u64), Vec<(u64, u64)>)> = vec![
+        ("b_valid_v2_no_child", (s, s + 10), vec![]),
+        ("b_valid_v2_overlap_one_epoch_high", (s, s + 10), vec![(s + 9, s + 20)]),
+        ("b_valid_v2_touching_high", (s, s + 10), vec![(s + 10, s + 20)]),
+        ("b_valid_v2_overlap_one_epoch_low", (s, s + 10), vec![(s - 10, s + 1)]),
+        ("b_valid_v2_touching_low", (s, s + 10), vec![(s - 10, s)]),
+        ("b_valid_v2_child_inside", (s, s + 10), vec![(s + 3, s + 5)]),
+        ("b_valid_v2_child_too_long", (s, s + 10), vec![(s, s + maxr + 1)]),
+        ("b_valid_v2_child_max", (s, s + 10), vec![(s, s + maxr)]),
+        ("b_valid_v2_child_empty", (s, s + 10), vec![(s + 2, s + 2)]),
+        ("b_valid_v2_root_too_long", (s, s + maxr + 1), vec![(s, s + 5)]),
+        ("b_valid_v2_two_children_disjoint", (s, s + 10), vec![(s, s + 4), (s + 4, s + 9)]),
+        ("b_valid_v2_two_children_common_epoch", (s, s + 10), vec![(s, s + 5), (s + 4, s + 9)]),
+    ];
+    for (i, (class, root, kids)) in v2.iter().enumerate() {
+        let mut ids = Ids { by_hash: BTreeMap::new() };
+        let children: Vec<Child> = kids.iter().enumerate().map(|(j, (a, b))| build_child(&mut ids, 9000 + (i * 10 + j) as u64, *a, *b)).collect();
+        let tx = build_v2(validator, &mut ids, 8000 + i as u64, root.0, root.1, Want::Success, &children);
+        out.push(run_valid(&tx, maxr, report, Some(class)));
+    }
+    out
 }
 
 // ------------------------------------------------------------------------------------------------
@@ -381,6 +502,21 @@ fn write_tracker(ledger: &mut Ledger, t: TransactionTrackerSubstateV1) {
         FieldSubstate::new_unlocked_field(TransactionTrackerSubstate::V1(t)),
     );
     ledger.substate_db_mut().commit(&updates.create_database_updates());
+}
+
+/// number of status records per tracker partition (non-empty partitions only), read from the database
+fn store_counts(ledger: &Ledger) -> String {
+    let mut v = vec![];
+    for p in PARTITION_RANGE_START..=PARTITION_RANGE_END {
+        let n = ledger.substate_db().list_raw_values(TRANSACTION_TRACKER, PartitionNumber(p), None::<SubstateKey>).count();
+        if n > 0 {
+            v.push(format!("({}, {})", p, n));
+        }
+    }
+    coq_list(v.into_iter())
+}
+fn obs_str(ledger: &Ledger, o: &(u64, u64, u8)) -> String {
+    format!("({}, {}, {}, {})", o.0, o.1, o.2, store_counts(ledger))
 }
 
 fn observe(ledger: &mut Ledger) -> (u64, u64, u8) {
@@ -507,13 +643,11 @@ fn do_submit(ledger: &mut Ledger, h: &mut Hist, tx: &Tx, ids: &mut Ids) -> Res {
         h.failures.push(format!("engine panicked on a submitted transaction at epoch {}", cur));
     }
     h.steps.push(format!(
-        "(ESubmit {} {}, {}, ({}, {}, {}))",
+        "(ESubmit {} {}, {}, {})",
         coq_list(tx.intents.iter().map(intent_coq)),
         oc,
         res_coq(&res),
-        o.0,
-        o.1,
-        o.2
+        obs_str(ledger, &o)
     ));
     res
 }
@@ -530,13 +664,13 @@ fn do_next(ledger: &mut Ledger, h: &mut Hist, k: u64) {
     }
     h.n_epochs += k;
     h.n_partition_rotations += (o.1 - before.1) / EPOCHS_PER_PARTITION;
-    h.steps.push(format!("(ENext {}, (ERes (RCommit true)), ({}, {}, {}))", k, o.0, o.1, o.2));
+    h.steps.push(format!("(ENext {}, (ERes (RCommit true)), {})", k, obs_str(ledger, &o)));
 }
 
 fn do_sys(ledger: &mut Ledger, h: &mut Hist) {
     let _ = ledger.get_current_epoch();
     let o = observe(ledger);
-    h.steps.push(format!("(ESys, (ERes (RCommit true)), ({}, {}, {}))", o.0, o.1, o.2));
+    h.steps.push(format!("(ESys, (ERes (RCommit true)), {})", obs_str(ledger, &o)));
 }
 
 fn pick_want(rng: &mut Rng) -> Want {
@@ -563,6 +697,180 @@ fn pick_end(rng: &mut Rng, cur: u64, start_epoch: u64, s: u64, maxr: u64) -> u64
         _ => cur + 1 + rng.below(300),
     };
     e
+}
+
+// ------------------------------------------------------------------------------------------------
+// scripted boundary histories (identical for every seed)
+// ------------------------------------------------------------------------------------------------
+struct Script {
+    ledger: Ledger,
+    validator: TransactionValidator,
+    ids: Ids,
+    h: Hist,
+    disc: u64,
+    init_coq: String,
+}
+
+impl Script {
+    fn new(sp: u8, start_epoch: u64, off: u64) -> Script {
+        let mut ledger = new_ledger();
+        let validator = ledger.transaction_validator().clone();
+        let real = read_tracker(&ledger);
+        write_tracker(&mut ledger, TransactionTrackerSubstateV1 { start_epoch, start_partition: sp, ..real.clone() });
+        ledger.set_current_epoch(Epoch::of(start_epoch + off));
+        let init = observe(&mut ledger);
+        let init_coq = format!(
+            "(mkState {} (mkTracker {} {} {} {} {}) [])",
+            init.0, init.1, init.2, real.partition_range_start_inclusive, real.partition_range_end_inclusive, real.epochs_per_partition
+        );
+        Script {
+            ledger,
+            validator,
+            ids: Ids { by_hash: BTreeMap::new() },
+            h: Hist { steps: vec![], committed: BTreeMap::new(), n_replay_rejected: 0, n_commits: 0, n_epochs: 0, n_partition_rotations: 0, failures: vec![] },
+            disc: 500,
+            init_coq,
+        }
+    }
+    fn v1(&mut self, s: u64, e: u64, want: Want) -> Tx {
+        self.disc += 1;
+        build_v1(&self.validator, &mut self.ids, self.disc as u32, s, e, want)
+    }
+    fn child(&mut self, s: u64, e: u64) -> Child {
+        self.disc += 1;
+        build_child(&mut self.ids, self.disc, s, e)
+    }
+    fn v2(&mut self, s: u64, e: u64, want: Want, cs: &[Child]) -> Tx {
+        self.disc += 1;
+        build_v2(&self.validator, &mut self.ids, self.disc, s, e, want, cs)
+    }
+    /// submit and count the class when the receipt is the expected one (a class that is not reached
+    /// fails its floor)
+    fn submit(&mut self, report: &mut Report, class: &str, tx: &Tx, expect: &str) {
+        let r = do_submit(&mut self.ledger, &mut self.h, tx, &mut self.ids);
+        let got = match r {
+            Res::Invalid => "invalid",
+            Res::Commit(true) => "success",
+            Res::Commit(false) => "failure",
+            Res::NotYetValid => "not_yet_valid",
+            Res::NoLongerValid => "no_longer_valid",
+            Res::PrevCommitted(false, _) => "prev_tx",
+            Res::PrevCommitted(true, _) => "prev_sub",
+            Res::PrevCancelled(..) => "cancelled",
+            Res::ExecRejected => "exec_rejected",
+            Res::Panic => "panic",
+        };
+        if got == expect {
+            report.count(class);
+        } else {
+            report.count("b_hist_unexpected_receipt");
+            report.notes.push(format!("scripted step {}: expected {} got {}", class, expect, got));
+        }
+    }
+    fn next(&mut self, report: &mut Report, class: &str, k: u64, expect_sp: u8) {
+        do_next(&mut self.ledger, &mut self.h, k);
+        let o = observe(&mut self.ledger);
+        if o.2 == expect_sp {
+            report.count(class);
+        } else {
+            report.count("b_hist_unexpected_receipt");
+            report.notes.push(format!("scripted step {}: expected start partition {} got {}", class, expect_sp, o.2));
+        }
+    }
+    fn finish(self, maxr: u64) -> (String, Vec<String>) {
+        (format!("CHist {} {} {}", maxr, self.init_coq, coq_list(self.h.steps.iter().cloned())), self.h.failures)
+    }
+}
+
+fn scripted_histories(maxr: u64, report: &mut Report) -> Vec<(String, Vec<String>)> {
+    let (lo, hi, epp) = (PARTITION_RANGE_START, PARTITION_RANGE_END, EPOCHS_PER_PARTITION);
+    let mut out = vec![];
+    // ---- A: start partition = last partition of the ring, two epochs before the rotation ----
+    {
+        let s0 = 1000u64;
+        let mut sc = Script::new(hi, s0, epp - 2); // epoch 1098
+        let c = s0 + epp - 2;
+        let t1 = sc.v1(c, s0 + epp, Want::Success); // expiry = first epoch of the next partition (index wraps)
+        let t2 = sc.v1(c - 8, s0 + epp - 1, Want::Failure); // expiry = last epoch of the start partition
+        let t3 = sc.v1(c + 1, c + 7, Want::Success);
+        let tr = sc.v1(c, s0 + epp, Want::Reject);
+        sc.submit(report, "b_hist_commit_expiry_on_partition_boundary", &t1, "success");
+        sc.submit(report, "b_hist_commit_failure_expiry_last_epoch_of_partition", &t2, "failure");
+        sc.submit(report, "b_hist_not_yet_valid_one_epoch_early", &t3, "not_yet_valid");
+        sc.submit(report, "b_hist_replay_immediate", &t1, "prev_tx");
+        sc.submit(report, "b_hist_replay_of_failed_transaction", &t2, "prev_tx");
+        sc.submit(report, "b_hist_rejected_execution", &tr, "exec_rejected");
+        sc.submit(report, "b_hist_rejected_not_recorded", &tr, "exec_rejected");
+        sc.next(report, "b_hist_epoch_change_without_rotation", 1, hi); // 1099
+        sc.submit(report, "b_hist_expired_exactly_at_expiry", &t2, "no_longer_valid");
+        sc.submit(report, "b_hist_replay_in_last_valid_epoch", &t1, "prev_tx");
+        sc.submit(report, "b_hist_valid_exactly_at_start", &t3, "success");
+        sc.next(report, "b_hist_rotation_with_index_wrap", 1, lo); // 1100: partition 255 recycled
+        sc.submit(report, "b_hist_expired_exactly_at_expiry", &t1, "no_longer_valid");
+        sc.submit(report, "b_hist_replay_after_rotation", &t3, "prev_tx");
+        let n0 = s0 + epp;
+        let t4 = sc.v1(n0, n0 + maxr, Want::Success);
+        let t5 = sc.v1(n0, n0 + maxr + 1, Want::Success);
+        sc.submit(report, "b_hist_max_window_committed", &t4, "success");
+        sc.submit(report, "b_hist_window_too_long_refused", &t5, "invalid");
+        sc.submit(report, "b_hist_replay_max_window", &t4, "prev_tx");
+        // subintents: not recorded when the transaction fails, recorded on success
+        let c1 = sc.child(n0, n0 + epp);
+        let r1 = sc.v2(n0, n0 + 10, Want::Failure, &[c1.clone()]);
+        let r2 = sc.v2(n0, n0 + 10, Want::Success, &[c1.clone()]);
+        let r3 = sc.v2(n0, n0 + 10, Want::Success, &[c1.clone()]);
+        sc.submit(report, "b_hist_v2_failure_with_subintent", &r1, "failure");
+        sc.submit(report, "b_hist_subintent_reusable_after_failure", &r2, "success");
+        sc.submit(report, "b_hist_subintent_replay_rejected", &r3, "prev_sub");
+        sc.submit(report, "b_hist_failed_root_replay_rejected", &r1, "prev_tx");
+        do_sys(&mut sc.ledger, &mut sc.h);
+        sc.next(report, "b_hist_epoch_changes_inside_partition", epp - 1, lo); // 1199
+        sc.submit(report, "b_hist_root_expired", &r3, "no_longer_valid");
+        let t6 = sc.v1(n0 + epp - 1, n0 + epp + 1, Want::Success);
+        sc.submit(report, "b_hist_commit_last_epoch_before_rotation", &t6, "success");
+        sc.next(report, "b_hist_rotation_without_index_wrap", 1, lo + 1); // 1200: partition 65 recycled
+        sc.submit(report, "b_hist_replay_across_rotation", &t6, "prev_tx");
+        sc.submit(report, "b_hist_replay_max_window", &t4, "prev_tx");
+        sc.next(report, "b_hist_epoch_change_without_rotation", 1, lo + 1); // 1201
+        sc.submit(report, "b_hist_expired_exactly_at_expiry", &t6, "no_longer_valid");
+        out.push(sc.finish(maxr));
+    }
+    // ---- B: start partition = last but one: two rotations, the second one wraps the index ----
+    {
+        let s0 = 70_000u64;
+        let mut sc = Script::new(hi - 1, s0, epp - 1);
+        let c = s0 + epp - 1;
+        let ta = sc.v1(c, s0 + 2 * epp + 50, Want::Success); // lands in partition lo (index wrap inside the lookup)
+        let tb = sc.v1(c, s0 + 2 * epp, Want::Failure); // expiry exactly at the second rotation epoch
+        sc.submit(report, "b_hist_commit_into_wrapped_partition", &ta, "success");
+        sc.submit(report, "b_hist_commit_into_wrapped_partition", &tb, "failure");
+        sc.next(report, "b_hist_rotation_without_index_wrap", 1, hi);
+        sc.submit(report, "b_hist_replay_after_rotation", &ta, "prev_tx");
+        sc.next(report, "b_hist_epoch_changes_inside_partition", epp - 1, hi);
+        sc.submit(report, "b_hist_replay_in_last_valid_epoch", &tb, "prev_tx");
+        sc.next(report, "b_hist_rotation_with_index_wrap", 1, lo);
+        sc.submit(report, "b_hist_record_survives_wrapping_rotation", &ta, "prev_tx");
+        sc.submit(report, "b_hist_expired_exactly_at_expiry", &tb, "no_longer_valid");
+        sc.next(report, "b_hist_epoch_changes_inside_partition", 49, lo);
+        sc.submit(report, "b_hist_replay_in_last_valid_epoch", &ta, "prev_tx");
+        sc.next(report, "b_hist_epoch_change_without_rotation", 1, lo);
+        sc.submit(report, "b_hist_expired_exactly_at_expiry", &ta, "no_longer_valid");
+        out.push(sc.finish(maxr));
+    }
+    // ---- C: first partition, first epoch of the partition ----
+    {
+        let s0 = 5000u64;
+        let mut sc = Script::new(lo, s0, 0);
+        let t = sc.v1(s0, s0 + 1, Want::Success);
+        let u = sc.v1(s0 - 1, s0, Want::Success); // window ended exactly now
+        sc.submit(report, "b_hist_one_epoch_window", &t, "success");
+        sc.submit(report, "b_hist_window_just_ended", &u, "no_longer_valid");
+        sc.submit(report, "b_hist_replay_immediate", &t, "prev_tx");
+        sc.next(report, "b_hist_epoch_change_without_rotation", 1, lo);
+        sc.submit(report, "b_hist_expired_exactly_at_expiry", &t, "no_longer_valid");
+        out.push(sc.finish(maxr));
+    }
+    out
 }
 
 fn history_case(rng: &mut Rng, maxr: u64, nsteps: usize, wrap: bool, report: &mut Report) -> (String, Vec<String>, bool) {
@@ -726,6 +1034,56 @@ fn main() {
     let n_valid = args.cases / 5;
     let n_unit = args.cases.saturating_sub(n_hist + n_valid);
     let mut idx: u64 = 0;
+    // ---- deterministic boundary families (identical for every seed), before the random streams ----
+    for term in unit_boundary_family(&mut report) {
+        cw.push(term);
+        idx += 1;
+    }
+    for term in valid_boundary_family(&validator, maxr, &mut report) {
+        cw.push(term);
+        idx += 1;
+    }
+    for (term, failures) in scripted_histories(maxr, &mut report) {
+        report.case(&term, true);
+        for f in failures {
+            report.oracle_failure(idx as usize, "", &f, json!({"scripted_history": term.chars().take(4000).collect::<String>()}));
+        }
+        cw.push(term);
+        idx += 1;
+    }
+    let boundary_classes: Vec<String> = report.distribution.keys().filter(|k| k.starts_with("b_") && k.as_str() != "b_hist_unexpected_receipt").cloned().collect();
+    // every class of the list below must be produced on every run (a class that stops being generated,
+    // or whose scripted receipt changes, fails the run)
+    const REQUIRED: &[&str] = &[
+        "b_unit_below_start", "b_unit_at_start", "b_unit_partition_last_epoch", "b_unit_partition_boundary",
+        "b_unit_before_index_wrap", "b_unit_index_wrap", "b_unit_window_last", "b_unit_window_end",
+        "b_unit_tiny_ring", "b_unit_single_partition", "b_unit_panic", "b_unit_u8_limit", "b_unit_epp_zero",
+        "b_unit_u64_edge", "b_unit_sp_outside_ring",
+        "b_valid_v1_empty_window", "b_valid_v1_reversed_window", "b_valid_v1_one_epoch", "b_valid_v1_max_minus_1",
+        "b_valid_v1_max", "b_valid_v1_max_plus_1", "b_valid_v1_from_zero", "b_valid_v1_u64_edge_ok",
+        "b_valid_v1_u64_edge_overflow", "b_valid_v2_no_child", "b_valid_v2_overlap_one_epoch_high",
+        "b_valid_v2_touching_high", "b_valid_v2_overlap_one_epoch_low", "b_valid_v2_touching_low",
+        "b_valid_v2_child_inside", "b_valid_v2_child_too_long", "b_valid_v2_child_max", "b_valid_v2_child_empty",
+        "b_valid_v2_root_too_long", "b_valid_v2_two_children_disjoint", "b_valid_v2_two_children_common_epoch",
+        "b_valid_accepted", "b_valid_refused",
+        "b_hist_commit_expiry_on_partition_boundary", "b_hist_commit_failure_expiry_last_epoch_of_partition",
+        "b_hist_not_yet_valid_one_epoch_early", "b_hist_replay_immediate", "b_hist_replay_of_failed_transaction",
+        "b_hist_rejected_execution", "b_hist_rejected_not_recorded", "b_hist_epoch_change_without_rotation",
+        "b_hist_expired_exactly_at_expiry", "b_hist_replay_in_last_valid_epoch", "b_hist_valid_exactly_at_start",
+        "b_hist_rotation_with_index_wrap", "b_hist_replay_after_rotation", "b_hist_max_window_committed",
+        "b_hist_window_too_long_refused", "b_hist_replay_max_window", "b_hist_v2_failure_with_subintent",
+        "b_hist_subintent_reusable_after_failure", "b_hist_subintent_replay_rejected",
+        "b_hist_failed_root_replay_rejected", "b_hist_epoch_changes_inside_partition", "b_hist_root_expired",
+        "b_hist_commit_last_epoch_before_rotation", "b_hist_rotation_without_index_wrap",
+        "b_hist_replay_across_rotation", "b_hist_commit_into_wrapped_partition",
+        "b_hist_record_survives_wrapping_rotation", "b_hist_one_epoch_window", "b_hist_window_just_ended",
+    ];
+    for c in REQUIRED {
+        report.floor(c, 1);
+    }
+    report.floor("b_hist_expired_exactly_at_expiry", 6);
+    report.floor("b_unit_tiny_ring", 36);
+    report.extra.insert("boundary_classes".into(), json!(boundary_classes));
     for _ in 0..n_unit {
         let mut rng = root.fork(idx);
         idx += 1;
